@@ -82,7 +82,18 @@ class RegNest(RegDom):
         return hash(repr(self))
 
 
-SHAPES = ["FlatRaw", "FlatReg", "FlatTyme", "FlatIce", "Nest1", "Nest2", "IceNest", "RegNest"]
+@dataclass
+class Empty(RawDom):
+    """a data object without fields (serialises to an empty mapping)"""
+
+
+@dataclass
+class NestE(RawDom):
+    e: Empty = None
+    y: Any = None
+
+
+SHAPES = ["FlatRaw", "FlatReg", "FlatTyme", "FlatIce", "Nest1", "Nest2", "IceNest", "RegNest", "NestE"]
 FORMATS = [("json", "_asjson", "_fromjson"), ("cbor", "_ascbor", "_fromcbor"), ("mgpk", "_asmgpk", "_frommgpk")]
 
 
@@ -150,8 +161,8 @@ def RULE(tier):
             "dicts (second field from a fixed small set); oracle: cls._fromX(obj._asX()) == obj, same class, type-strict deep "
             "equality of fields, and again on the same object after a list/dict field value was changed in place; plus, for the nested "
             "shapes, every sequence of <= %d objects from a pool whose nested field is absent (None), present, or present with None "
-            "inside, round-tripped one after the other in the same process (the result must not depend on what was converted "
-            "before). One case = (shape, format, field values)." % (len(SHAPES), n, len(ATOMS), 3 if tier == "quick" else 4))
+            "inside, and of rejected (truncated / trailing-garbage) inputs, handled one after the other in the same process (a result must not "
+            "depend on what was converted or rejected before); every serialisation is also read twice, the first result edited in place in between. One case = (shape, format, field values)." % (len(SHAPES), n, len(ATOMS), 2 if tier == "quick" else 3))
 
 
 def EXHAUSTIVE(tier):
@@ -163,7 +174,7 @@ def jobs(tier):
     nt = len(all_terms(n))
     step = 400
     return [(sh, a, min(a + step, nt), n) for sh in SHAPES for a in range(0, nt, step)] + \
-           [("hist", sh, 3 if tier == "quick" else 4) for sh in sorted(POOLS)]
+           [("hist", sh, 2 if tier == "quick" else 3) for sh in sorted(POOLS)]
 
 
 # objects of the nested shapes whose nested field is absent (None), present, or present with None inside: round-tripped one
@@ -178,11 +189,24 @@ POOLS = {
 }
 
 
+BAD_INPUTS = [("_frommgpk", b"\x82\xa1x"), ("_frommgpk", b"\x81\xa1y\x01\xc1"), ("_fromcbor", b"\xa2ax"), ("_fromjson", '{"x": ')]
+
+
 def check_hist(shape, seq):
-    """round trips of POOLS[shape][i] for i in seq, in this process"""
+    """round trips of POOLS[shape][i] for i in seq, in this process; an index i >= len(pool) stands for BAD_INPUTS[i - len(pool)]:
+    a truncated / trailing-garbage serialisation handed to the deserialiser (it may raise or not - only what comes AFTER is judged)"""
     v = []
+    pool = POOLS[shape]
+    cls = type(pool[0]())
     for k, i in enumerate(seq):
-        v = _roundtrip(shape, POOLS[shape][i](), ":after-earlier-objects" if k else "")
+        if i >= len(pool):
+            de, raw = BAD_INPUTS[i - len(pool)]
+            try:
+                getattr(cls, de)(raw)
+            except Exception:
+                pass
+            continue
+        v = _roundtrip(shape, pool[i](), ":after-earlier-objects" if k else "")
         if v:
             break
     return v
@@ -251,6 +275,8 @@ def build(shape, t, s):
         return IceNest(x=FlatIce(a=t, b=s), y=s)
     if shape == "RegNest":
         return RegNest(x=FlatReg(a=t, b=s), y=FlatTyme(a=s, b=t))
+    if shape == "NestE":
+        return NestE(e=Empty(), y=t)
     raise AssertionError(shape)
 
 
@@ -289,6 +315,23 @@ def _roundtrip(shape, obj, phase):
         try:
             raw = getattr(obj, ser)()
             back = getattr(type(obj), de)(raw)
+            # the same serialisation read a second time, after the first result was edited in place, is the original again
+            edited = False
+            for f in fields(back):
+                val = getattr(back, f.name)
+                if isinstance(val, list):
+                    val.append("edited")
+                    edited = True
+                elif isinstance(val, dict):
+                    val["edited"] = 1
+                    edited = True
+            if edited:
+                back2 = getattr(type(obj), de)(raw)
+                if not (back2 == obj):
+                    v.append(("%s:second-read-differs:%s%s" % (fmt, shape, phase), "%s: reading %r a second time, after the first result was "
+                              "edited in place, gave %r, original %r" % (fmt, raw, back2, obj)))
+                    continue
+                back = back2
         except Exception as ex:
             v.append(("%s:raises:%s:%s%s" % (fmt, type(ex).__name__, shape, phase), "%s round trip of %r raised %r" % (fmt, obj, ex)))
             continue
@@ -307,6 +350,8 @@ def run_job(job, tier, seed):
         _, shape, depth = job
         k = len(POOLS[shape])
         seqs = [list(seq) for n in range(1, depth + 1) for seq in product([list(range(k))] * n)]
+        seqs += [[k + b, g] for b in range(len(BAD_INPUTS)) for g in range(k)]          # a rejected input, then a good object
+        seqs += [[g0, k + b, g] for b in range(len(BAD_INPUTS)) for g0 in range(k) for g in range(k)]
         for seq, viols in hist_pristine(shape, seqs):
             acc.case(["hist", shape, list(seq)], "ok" if not viols else viols[0][0], viols, sample=dict(shape=shape, sequence=list(seq)))
         acc.r.obs.add(hash(("hist", shape)))
